@@ -287,6 +287,12 @@ func genScenario(r *rand.Rand, id string, withColon bool) *Scenario {
 		}
 	}
 	sc.Ops = append(sc.Ops, Op{Op: "New", Opts: &o})
+	if r.Intn(5) == 0 { // the registry is scraped before the exporter is handed to a MeterProvider
+		for n := 1 + r.Intn(2); n > 0; n-- {
+			sc.Ops = append(sc.Ops, Op{Op: "Scrape"})
+		}
+	}
+	sc.Ops = append(sc.Ops, Op{Op: "Register"})
 	// attribute sets: AS 1 is always empty
 	extra := [][]Tok{scopeNameLabel(), sc.Res[0].K, {w("service"), sep("_"), w("name")}}
 	sc.ASes = [][]Attr{{}}
@@ -362,6 +368,9 @@ func genScenario(r *rand.Rand, id string, withColon bool) *Scenario {
 		}
 		insts = append(insts, in)
 	}
+	if r.Intn(6) == 0 {
+		insts, _ = illFormed(r, sc, insts, scopes)
+	}
 	// operations
 	next := 0
 	create := func() {
@@ -385,7 +394,28 @@ func genScenario(r *rand.Rand, id string, withColon bool) *Scenario {
 		}
 	}
 	sc.Ops = append(sc.Ops, Op{Op: "Scrape"})
+	if r.Intn(6) == 0 { // MeterProvider.Shutdown, then the registry is scraped again
+		sc.Ops = append(sc.Ops, Op{Op: "Shutdown"}, Op{Op: "Scrape"})
+	}
 	return sc
+}
+
+// illFormed adds inputs the SDK accepts although they are ill-formed (not valid UTF-8): an attribute value, an
+// instrument description, a meter name / version / scope attribute value. Ill-formed instruments and scopes get
+// names of their own, so that they never share a family with a well-formed instrument.
+func illFormed(r *rand.Rand, sc *Scenario, insts []Inst, scopes []string) ([]Inst, []string) {
+	if r.Intn(2) == 0 {
+		sc.ASes = append(sc.ASes, finishAS([]Attr{{K: []Tok{w("k")}, T: "s", V: "v"}, {K: []Tok{w("u")}, T: "s", V: "ill", Ill: true}}))
+	}
+	if r.Intn(2) == 0 {
+		sc.Scopes = append(sc.Scopes, ScopeRec{ID: "sX", Name: "sX", Version: "vsX", Attrs: []Attr{}, Ill: pick(r, []string{"name", "version", "attr"})})
+		insts = append(insts, Inst{ID: len(insts) + 1, Scope: "sX", Toks: []Tok{w("inbadscope")}, Kind: pick(r, kinds), Desc: "d1"})
+		scopes = append(scopes, "sX")
+	}
+	if r.Intn(2) == 0 {
+		insts = append(insts, Inst{ID: len(insts) + 1, Scope: pick(r, scopes), Toks: []Tok{w("baddesc")}, Kind: pick(r, kinds), Desc: "d1", Ill: true})
+	}
+	return insts, scopes
 }
 
 func random(args []string) {
@@ -477,6 +507,23 @@ func classify(res *vh.Result, sc *Scenario) {
 	}
 	if sc.NoMark {
 		res.Count("in-unmarked-scenario", 1)
+	}
+	for _, s := range sc.Scopes {
+		if s.Ill != "" {
+			res.Count("in-ill-formed-scope", 1)
+		}
+	}
+	for _, op := range sc.Ops {
+		if op.Op == "Create" && op.inst.Ill {
+			res.Count("in-ill-formed-description", 1)
+		}
+	}
+	for _, as := range sc.ASes {
+		for _, a := range as {
+			if a.Ill {
+				res.Count("in-ill-formed-attribute-value", 1)
+			}
+		}
 	}
 	for _, as := range sc.ASes {
 		n := 63
